@@ -694,6 +694,10 @@ func c19Vector(c *Ctx, raw stdjson.RawMessage) {
 func c19Replay(c *Ctx, raw stdjson.RawMessage) {
 	var k c19Case
 	if stdjson.Unmarshal(raw, &k) == nil {
+		if strings.HasPrefix(k.Mode, "literal:lengths") {
+			c19Lengths(c)
+			return
+		}
 		if strings.HasPrefix(k.Mode, "literal:") {
 			c19Literals(c)
 			return
@@ -765,6 +769,61 @@ func c19Literals(c *Ctx) {
 	}
 }
 
+// c19Lengths: a templated nested message whose rewritten encoding is shorter or longer than the one in the input, across
+// the sizes at which the length prefix changes width (128, 16384), one and two levels down
+func c19Lengths(c *Ctx) {
+	lens := []int{0, 1, 126, 127, 128, 129, 200, 16382, 16383, 16384, 16390}
+	for _, depth := range []int{1, 2} {
+		for _, lt := range []int{0, 1, 5, 126, 128, 131, 16384} {
+			ts := strings.Repeat("t", lt)
+			tmpl := `{"s": "` + ts + `"}`
+			for d := 0; d < depth; d++ {
+				tmpl = `{"n": ` + tmpl + `}`
+			}
+			var rw proto.Rewriter
+			var err error
+			k := c19Case{Mode: fmt.Sprintf("literal:lengths depth=%d template=%d", depth, lt)}
+			if p := protect(func() { rw, err = proto.ParseRewriteTemplate(proto.TypeOf(reflect.TypeOf(c19Lit{})), []byte(tmpl)) }); p != "" || err != nil {
+				c.Diverge("C19", "proto.ParseRewriteTemplate(nested)", "a Rewriter", fmt.Sprintf("%v %s", err, p), "", k)
+				continue
+			}
+			for _, li := range lens {
+				inner := &c19Lit{S: strings.Repeat("i", li), I: 7, U: 3}
+				in := c19Lit{I: -1, S: "keep", N: inner}
+				if depth == 2 {
+					in.N = &c19Lit{U: 9, S: strings.Repeat("m", li/2), N: inner}
+				}
+				b, _ := proto.Marshal(in)
+				b = append(b, 0x20, 0x2a) // an untemplated field behind the nested one (u = 42)
+				var out []byte
+				c.Case()
+				c.Eval(1)
+				if p := protect(func() { out, err = rw.Rewrite(nil, b) }); p != "" || err != nil {
+					c.Diverge("C19", "Rewriter.Rewrite(nested, lengths)", "a message", fmt.Sprintf("%v %s (input string %d bytes)", err, p, li), "", k)
+					continue
+				}
+				var got c19Lit
+				if e := proto.Unmarshal(out, &got); e != nil {
+					c.Diverge("C19", "Unmarshal(Rewrite(in))(nested, lengths)", "a valid message", fmt.Sprintf("%v (input string %d bytes, %d bytes out)", e, li, len(out)), "", k)
+					continue
+				}
+				tgt := got.N
+				if depth == 2 && tgt != nil {
+					tgt = tgt.N
+				}
+				ok := tgt != nil && tgt.S == ts && tgt.I == 7 && tgt.U == 3 && got.I == -1 && got.S == "keep" && got.U == 42
+				if depth == 2 {
+					ok = ok && got.N.U == 9 && got.N.S == strings.Repeat("m", li/2)
+				}
+				if !ok {
+					c.Diverge("C19", "Unmarshal(Rewrite(in))(nested, lengths)", fmt.Sprintf("nested s = %d x t, everything else kept", lt),
+						fmt.Sprintf("input string %d bytes: %.200s", li, fmt.Sprintf("%+v", got)), "", k)
+				}
+			}
+		}
+	}
+}
+
 func init() {
-	register("C19", &Driver{Vector: c19Vector, Replay: c19Replay, Extra: c19Literals})
+	register("C19", &Driver{Vector: c19Vector, Replay: c19Replay, Extra: func(c *Ctx) { c19Literals(c); c19Lengths(c) }})
 }
